@@ -19,7 +19,7 @@ _prog = None
 def fixture_prog():
     global _prog
     if _prog is None:
-        facts = extract("dev", repo=os.path.join(VERIF, "fixtures"), crate="nsfix", floor=16)
+        facts = extract("dev", repo=os.path.join(VERIF, "fixtures"), crate="nsfix", floor=17)
         _prog = Program(facts)
     return _prog
 
@@ -141,7 +141,16 @@ def fx_r25(prog):
     return len(res) >= 5 and len(bad) == 1 and bad[0]["case"] == "eq" and any(r["ok"] for r in res)
 
 
-FIXTURES = {"R24": fx_r24, "R25": fx_r25, "R21": fx_r21, "R22": fx_r22, "R1": fx_r1, "R8": fx_r8, "R9": fx_r9, "R14": fx_r14, "R3": fx_r3, "R4": fx_r4, "R5": fx_r5, "R6": fx_r6,
+def fx_r26(prog):
+    from . import rules_range as RR
+    c = Ctx("FX")
+    RR.rule_r26_ranges(c, prog, bodies=[("fix_r26_overshoot", prog.find("fix_r26_overshoot"))])
+    bad = {o["key"] for o in c.obs if not o["ok"]}
+    good = {o["key"] for o in c.obs if o["ok"]}
+    return "R26/fix_r26_overshoot/bracket/unsigned" in bad and "R26/fix_r26_overshoot/coincide/unsigned" in good
+
+
+FIXTURES = {"R26": fx_r26, "R24": fx_r24, "R25": fx_r25, "R21": fx_r21, "R22": fx_r22, "R1": fx_r1, "R8": fx_r8, "R9": fx_r9, "R14": fx_r14, "R3": fx_r3, "R4": fx_r4, "R5": fx_r5, "R6": fx_r6,
             "R18": fx_r18, "R19": fx_r19, "R10": fx_r10}
 
 
